@@ -134,6 +134,8 @@ def run(ctx):
     ctx.floor("R03.2", "creating PROPOSALS writes", n_prop, 2)
     check_total(ctx)
     check_table(ctx)
+    from ..idioms import check_overflow_profile
+    check_overflow_profile(ctx)
     check_queries(ctx, it)
     from ..idioms import config_as_configured
     config_as_configured(ctx, "R03.7", "cw3_fixed_multisig", it["fixed_config"], ("threshold", "max_voting_period"), "fixed")
